@@ -1,4 +1,4 @@
-import SC.Proofs.SrcBase
+import SC.Proofs.SrcNames
 /-!
 Theorems about the **regenerated source** (`Gen.Src.str`, the go/ssa form of `strcase.go`): what its leaf functions
 and thin wrappers return, each wrapper relative to what the function it calls returns.  `Properties/C17.lean`
